@@ -69,9 +69,16 @@ func seekAndMux(
 		dts := startOffset
 		prevInit := firstInit
 
+		// when a segment cannot be read (i.e. its writing was interrupted),
+		// deliver the samples that have been read until then.
+		flushAndReturn := func(err error) error {
+			m.flush() //nolint:errcheck
+			return err
+		}
+
 		segmentDuration, err := segmentFMP4MuxParts(f, dts, duration, firstInit.Tracks, m)
 		if err != nil {
-			return err
+			return flushAndReturn(err)
 		}
 
 		segmentEnd := segments[0].Start.Add(segmentDuration)
@@ -79,14 +86,14 @@ func seekAndMux(
 		for _, seg := range segments[1:] {
 			f, err = os.Open(seg.Fpath)
 			if err != nil {
-				return err
+				return flushAndReturn(err)
 			}
 			defer f.Close()
 
 			var init *fmp4.Init
 			init, _, err = segmentFMP4ReadHeader(f)
 			if err != nil {
-				return err
+				return flushAndReturn(err)
 			}
 
 			if !segmentFMP4CanBeConcatenated(prevInit, segmentEnd, init, seg.Start) {
@@ -102,7 +109,7 @@ func seekAndMux(
 
 			segmentDuration, err = segmentFMP4MuxParts(f, dts, duration, firstInit.Tracks, m)
 			if err != nil {
-				return err
+				return flushAndReturn(err)
 			}
 
 			segmentEnd = seg.Start.Add(segmentDuration)
